@@ -8,6 +8,7 @@ import (
 	"strings"
 
 	"go/token"
+	"go/types"
 	"golang.org/x/tools/go/ssa"
 )
 
@@ -29,6 +30,47 @@ func (w *World) canonAtom(a Atom) string {
 	if a.Kind == "cmp" {
 		x, y := w.arith(a.X), w.arith(a.Y)
 		op := a.Op
+		// integers: `h > p+1` and `h >= p+2` are the same condition; the form with the smaller offset is
+		// the canonical one
+		if isIntegral(a.X) && isIntegral(a.Y) {
+			abs := func(k int64) int64 {
+				if k < 0 {
+					return -k
+				}
+				return k
+			}
+			if base, k, ok := splitOffset(a.Y); ok { // x op e+k
+				d, nop := int64(0), op
+				switch op {
+				case token.LSS: // x < e+k == x <= e+k-1
+					d, nop = -1, token.LEQ
+				case token.GTR: // x > e+k == x >= e+k+1
+					d, nop = 1, token.GEQ
+				case token.LEQ: // x <= e+k == x < e+k+1
+					d, nop = 1, token.LSS
+				case token.GEQ: // x >= e+k == x > e+k-1
+					d, nop = -1, token.GTR
+				}
+				if d != 0 && abs(k+d) < abs(k) {
+					y, op = w.renderOffset(base, k+d), nop
+				}
+			} else if base, k, ok := splitOffset(a.X); ok { // e+k op y
+				d, nop := int64(0), op
+				switch op {
+				case token.LSS: // e+k < y == e+k+1 <= y
+					d, nop = 1, token.LEQ
+				case token.GTR: // e+k > y == e+k-1 >= y
+					d, nop = -1, token.GEQ
+				case token.LEQ: // e+k <= y == e+k-1 < y
+					d, nop = -1, token.LSS
+				case token.GEQ: // e+k >= y == e+k+1 > y
+					d, nop = 1, token.GTR
+				}
+				if d != 0 && abs(k+d) < abs(k) {
+					x, op = w.renderOffset(base, k+d), nop
+				}
+			}
+		}
 		if x > y {
 			x, y = y, x
 			op = flipOp(op)
@@ -101,6 +143,17 @@ func findCall(re string) func(w *World, f *ssa.Function) []ssa.Instruction {
 	}
 }
 
+// findCallOwn: as findCall, but only calls written in the function itself (not in helpers it calls).
+func findCallOwn(re string) func(w *World, f *ssa.Function) []ssa.Instruction {
+	inner := findCall(re)
+	return func(w *World, f *ssa.Function) []ssa.Instruction {
+		if w.subst != nil {
+			return nil // we are inside a helper of the anchored function
+		}
+		return inner(w, f)
+	}
+}
+
 func init() {
 	const maj = `cs.Votes.Prevotes(vote.Round).TwoThirdsMajority()`
 	const pmaj = `cs.Votes.Precommits(vote.Round).TwoThirdsMajority()`
@@ -116,6 +169,8 @@ func init() {
 	// "this is not the round-skip case" (the first case of the switch did not match)
 	const notSkip = "false(phi(cs.Votes.Prevotes(vote.Round).HasTwoThirdsAny()|false))"
 	cat := func(a []string, b ...string) []string { return append(append([]string{}, a...), b...) }
+	// the gossip routines run while reactor and peer do
+	gossipCtx := []string{"true(conR.BaseReactor.BaseService.IsRunning())", "true(peer.IsRunning())"}
 
 	actions := []c03action{
 		// ---- unlock on a later polka (seeded: `vote.Round == cs.Round`)
@@ -169,6 +224,22 @@ func init() {
 		{fn: "State.defaultSetProposal", name: "a proposal starts a part set only when none is being collected",
 			find:    findStore("cs.ProposalBlockParts", `types\.NewPartSetFromHeader\(proposal\.BlockID\.PartSetHeader\)`),
 			allowed: nil, require: []string{"nil(cs.ProposalBlockParts)"}, min: 1},
+		// ---- vote gossip serves a peer at every lag (seeded: a peer exactly two heights behind is served by no branch)
+		{fn: "Reactor.gossipVotesRoutine", name: "votes are gossiped to a peer at the same height",
+			find:    findCall(`^conR\.gossipVotesForHeight\(`),
+			allowed: cat(gossipCtx, "conR.getRoundState().Height == ps.GetRoundState().Height"), min: 1},
+		{fn: "Reactor.gossipVotesRoutine", name: "the last commit is sent to a peer one height behind",
+			find:    findCallOwn(`^ps\.PickSendVote\(conR\.getRoundState\(\)\.LastCommit\)$`),
+			allowed: cat(gossipCtx, "(ps.GetRoundState().Height + 1) == conR.getRoundState().Height", "0 != ps.GetRoundState().Height"), min: 1},
+		{fn: "Reactor.gossipVotesRoutine", name: "the stored commit is looked up for a peer two or more heights behind (and within the store)",
+			find: findCallOwn(`^conR\.conS\.blockStore\.LoadBlockCommit\(ps\.GetRoundState\(\)\.Height\)$`),
+			allowed: cat(gossipCtx, "(ps.GetRoundState().Height + 1) < conR.getRoundState().Height", "0 != ps.GetRoundState().Height",
+				"0 < conR.conS.blockStore.Base()", "conR.conS.blockStore.Base() <= ps.GetRoundState().Height"), min: 1},
+		{fn: "Reactor.gossipVotesRoutine", name: "the stored commit is sent to a peer two or more heights behind",
+			find: findCallOwn(`^ps\.PickSendVote\(conR\.conS\.blockStore\.LoadBlockCommit\(ps\.GetRoundState\(\)\.Height\)\)$`),
+			allowed: cat(gossipCtx, "(ps.GetRoundState().Height + 1) < conR.getRoundState().Height", "0 != ps.GetRoundState().Height",
+				"0 < conR.conS.blockStore.Base()", "conR.conS.blockStore.Base() <= ps.GetRoundState().Height",
+				"nonnil(conR.conS.blockStore.LoadBlockCommit(ps.GetRoundState().Height))"), min: 1},
 	}
 
 	// ------------------------------------------------------------------ C03.R1
@@ -605,4 +676,231 @@ func fieldOfRecv(c ssa.CallInstruction) string {
 		return ""
 	}
 	return exprD(r, 0, &ectx{m: map[ssa.Value]bool{}})
+}
+
+// ------------------------------------------------------------------ C03.R7
+// The timeout ticker keeps one pending timeout. A new tick replaces it exactly when it is for a later
+// (height, round, step) — or when nothing is pending — and is dropped otherwise. Both directions matter for
+// termination: if an earlier step's tick may replace a later step's pending timeout (e.g. a prevote-wait
+// tick cancelling the precommit-wait timeout, which is scheduled only once per round), that timeout never
+// fires and the node never leaves the round; if a later tick may be dropped, its timeout never fires either.
+// The two struct values compared are loop-carried locals, so they are told apart structurally (the value
+// received from the tick channel vs the variable it is copied into), not by name.
+func init() {
+	register("C03", "R7", "K11+K1", "timeout ticker: the pending timeout is replaced only by a tick for a later (height, round, step), and a tick is dropped only if it is not later", 7, func(c *Ctx) {
+		w := c.W
+		f := c.fn("consensus", "timeoutTicker.timeoutRoutine")
+		if f == nil {
+			return
+		}
+		fk := funcKey(f)
+		// the received tick: extract #2 of the select (possibly spilled into its own alloc); the pending one: the
+		// alloc that is assigned from it
+		var newAlloc, oldAlloc *ssa.Alloc
+		var newVal ssa.Value
+		for _, b := range f.Blocks {
+			for _, in := range b.Instrs {
+				st, ok := in.(*ssa.Store)
+				if !ok {
+					continue
+				}
+				a, isA := st.Addr.(*ssa.Alloc)
+				if !isA {
+					continue
+				}
+				if ex, isEx := st.Val.(*ssa.Extract); isEx {
+					if _, isSel := ex.Tuple.(*ssa.Select); isSel {
+						newAlloc, newVal = a, ex
+					}
+				}
+			}
+		}
+		for _, b := range f.Blocks {
+			for _, in := range b.Instrs {
+				st, ok := in.(*ssa.Store)
+				if !ok {
+					continue
+				}
+				a, isA := st.Addr.(*ssa.Alloc)
+				if !isA || a == newAlloc {
+					continue
+				}
+				if ld, isLd := st.Val.(*ssa.UnOp); isLd && ld.Op == token.MUL && newAlloc != nil && ld.X == ssa.Value(newAlloc) {
+					oldAlloc = a
+				} else if newVal != nil && st.Val == newVal {
+					oldAlloc = a
+				}
+			}
+		}
+		if !c.Check((newAlloc != nil || newVal != nil) && oldAlloc != nil, fk+" :: received tick and pending timeout identified", w.pos(f.Pos()), "tick := <-tickChan; pending = tick", "the shape of the routine changed: re-confirm by reading") {
+			return
+		}
+		var render func(v ssa.Value) string
+		render = func(v ssa.Value) string {
+			v = stripConv(v)
+			switch x := v.(type) {
+			case *ssa.Const:
+				return w.expr(x)
+			case *ssa.UnOp:
+				if x.Op == token.MUL {
+					if fa, ok := x.X.(*ssa.FieldAddr); ok {
+						fld := fa.X.Type().Underlying().(*types.Pointer).Elem().Underlying().(*types.Struct).Field(fa.Field).Name()
+						switch fa.X {
+						case ssa.Value(newAlloc):
+							return "new." + fld
+						case ssa.Value(oldAlloc):
+							return "old." + fld
+						}
+					}
+				}
+			case *ssa.Field:
+				if x.X == newVal {
+					return "new." + x.X.Type().Underlying().(*types.Struct).Field(x.Field).Name()
+				}
+			}
+			return "?" + w.expr(v)
+		}
+		atomStr := func(a Atom) string {
+			if a.Kind != "cmp" {
+				return "?"
+			}
+			x, y, op := render(a.X), render(a.Y), a.Op
+			// orient: new on the left; constants on the right
+			if strings.HasPrefix(y, "new.") || (!strings.HasPrefix(x, "new.") && strings.HasPrefix(y, "old.") && !strings.HasPrefix(x, "old.")) {
+				x, y, op = y, x, flipOp(op)
+			}
+			return x + " " + op.String() + " " + y
+		}
+		implies := map[string][]string{"<": {"<", "<=", "!="}, ">": {">", ">=", "!="}, "==": {"==", "<=", ">="}, "<=": {"<="}, ">=": {">="}, "!=": {"!="}}
+		cmpG := func(name, x, op, y string) Guard {
+			return Guard{Name: name, Match: func(w *World, ff *ssa.Function, a Atom) bool {
+				s := strings.SplitN(atomStr(a), " ", 3)
+				if len(s) != 3 || s[0] != x || s[2] != y {
+					return false
+				}
+				for _, o := range implies[s[1]] {
+					if o == op {
+						return true
+					}
+				}
+				return false
+			}}
+		}
+		// (a) replacement only by a later tick
+		var reset ssa.Instruction
+		for _, call := range w.callsTo(f, "time#Timer.Reset") {
+			reset = call
+		}
+		if !c.Check(reset != nil, fk+" :: timer re-armed", w.pos(f.Pos()), "timer.Reset", "no timer.Reset found") {
+			return
+		}
+		c.guards(f, reset, fk+" :: re-arm the timer", 0,
+			cmpG("tick is not for an older height", "new.Height", ">=", "old.Height"),
+			guardAny("at the same height the tick is not for an older round", cmpG("h", "new.Height", "!=", "old.Height"), cmpG("r", "new.Round", ">=", "old.Round")),
+			guardAny("at the same height and round the tick is for a later step (or nothing is pending)", cmpG("h", "new.Height", "!=", "old.Height"), cmpG("r", "new.Round", "!=", "old.Round"), cmpG("s", "new.Step", ">", "old.Step"), cmpG("none", "old.Step", "<=", "0")))
+		// (b) a tick is dropped (loop continues without re-arming) only if it is not later
+		allowed := [][]string{
+			{"new.Height < old.Height"},
+			{"new.Height == old.Height", "new.Round < old.Round"},
+			{"new.Height == old.Height", "new.Round == old.Round", "old.Step > 0", "new.Step <= old.Step"},
+		}
+		by := map[string]map[Edge]bool{}
+		type ce struct {
+			e Edge
+			s string
+		}
+		var all []ce
+		for _, ea := range condEdges(f) {
+			s := atomStr(ea.A)
+			if strings.Contains(s, "?") {
+				continue
+			}
+			if by[s] == nil {
+				by[s] = map[Edge]bool{}
+			}
+			by[s][ea.E] = true
+			all = append(all, ce{ea.E, s})
+		}
+		head := reset.Block()
+		for head != nil && !(len(head.Instrs) > 0 && func() bool { _, ok := head.Instrs[len(head.Instrs)-1].(*ssa.If); return ok }() && func() bool {
+			for _, in := range head.Instrs {
+				if _, ok := in.(*ssa.Select); ok {
+					return true
+				}
+			}
+			return false
+		}()) {
+			head = head.Idom()
+		}
+		if !c.Check(head != nil, fk+" :: select loop head found", w.pos(f.Pos()), "for { select {…} }", "loop head not found") {
+			return
+		}
+		drops := 0
+		k := newKeyer()
+		for _, x := range all {
+			if x.e.From.Succs[x.e.Succ] != head {
+				continue
+			}
+			drops++
+			// necessary conditions of taking this edge
+			term := x.e.From.Instrs[len(x.e.From.Instrs)-1]
+			nec := map[string]bool{x.s: true}
+			for s, edges := range by {
+				if r, _ := reachFromEntry(f, edges, nil, term); !r {
+					nec[s] = true
+				}
+			}
+			ok := false
+			for _, alt := range allowed {
+				has := true
+				for _, a := range alt {
+					if !nec[a] {
+						// a stronger comparison is fine for a drop condition only if it is the listed one; nothing weaker
+						has = false
+					}
+				}
+				if has {
+					ok = true
+				}
+			}
+			c.Check(ok, k.key(f, "a tick is dropped only when it is not later than the pending timeout"), w.ipos(term), "older height | same height, older round | same height and round, step not later", "a tick is dropped under "+strings.Join(sortedKeys(nec), " && "))
+		}
+		c.Check(drops >= 3, fk+" :: drop edges found", w.pos(f.Pos()), ">= 3", fmt.Sprintf("%d", drops))
+	})
+}
+
+func isIntegral(v ssa.Value) bool {
+	b, ok := v.Type().Underlying().(*types.Basic)
+	return ok && b.Info()&types.IsInteger != 0
+}
+
+// splitOffset: v = base ± k with a non-zero integer constant k.
+func splitOffset(v ssa.Value) (ssa.Value, int64, bool) {
+	b, ok := stripConv(v).(*ssa.BinOp)
+	if !ok {
+		return nil, 0, false
+	}
+	if k, isC := constInt(b.Y); isC && (b.Op == token.ADD || b.Op == token.SUB) {
+		if _, xc := constInt(b.X); xc {
+			return nil, 0, false
+		}
+		if b.Op == token.SUB {
+			k = -k
+		}
+		return b.X, k, true
+	}
+	if k, isC := constInt(b.X); isC && b.Op == token.ADD {
+		return b.Y, k, true
+	}
+	return nil, 0, false
+}
+
+func (w *World) renderOffset(base ssa.Value, k int64) string {
+	switch {
+	case k == 0:
+		return w.arith(base)
+	case k > 0:
+		return fmt.Sprintf("(%s + %d)", w.arith(base), k)
+	}
+	return fmt.Sprintf("(%s - %d)", w.arith(base), -k)
 }
